@@ -31,6 +31,11 @@ type World struct {
 
 // newWorld builds a server of the given mode, registered on the simulated network as host.
 func newWorld(c *Ctx, mode, host string, extra ...mcp.ServerOption) *World {
+	return newWorldOpts(c, mode, host, extra, nil)
+}
+
+// newWorldOpts is newWorld with options for both HTTP server kinds.
+func newWorldOpts(c *Ctx, mode, host string, extra []mcp.ServerOption, sseExtra []mcp.SSEOption) *World {
 	w := &World{C: c, Mode: mode, Host: host, Count: newCounter()}
 	switch mode {
 	case "json", "post-sse", "stateless", "stateless-json", "nosession":
@@ -50,7 +55,8 @@ func newWorld(c *Ctx, mode, host string, extra ...mcp.ServerOption) *World {
 		w.Reg = regOf(w.Srv)
 		c.S.Net.Serve(host, w.Srv.Handler())
 	case "legacy-sse":
-		w.SSE = mcp.NewSSEServer("verif-server", "1.2.3", mcp.WithSSEServerLogger(nopLogger{}), mcp.WithBasePath("/mcp"))
+		so := append([]mcp.SSEOption{mcp.WithSSEServerLogger(nopLogger{}), mcp.WithBasePath("/mcp")}, sseExtra...)
+		w.SSE = mcp.NewSSEServer("verif-server", "1.2.3", so...)
 		w.Reg = regOf(w.SSE)
 		c.S.Net.Serve(host, w.SSE)
 	case "stdio":
